@@ -50,6 +50,7 @@ type Engine struct {
 	ghostPkg   map[string]string
 	localGhost map[string]bool
 	cache      *verdictCache
+	staleHints []string
 	chanGhostT map[string]types.Type // ghost event variables of named channels ($sends_x, $sent_x, $recvs_x, $received_x)
 }
 
@@ -191,6 +192,7 @@ func loadEngine(repo string) (*Engine, error) {
 			}
 		}
 	}
+	inlinableHook = e.inlinable
 	return e, nil
 }
 
@@ -345,7 +347,79 @@ func addrUsesLocal(root ssa.Value, v ssa.Value, depth int) bool {
 				return false
 			}
 		case *ssa.DebugRef:
+		case *ssa.MakeClosure:
+			// captured by a closure that is only ever called from this function and has no contract of its own: the
+			// closure body is executed in place, the free variable is then just another name for this cell
+			if !captureStaysLocal(r, v) {
+				return false
+			}
 		default:
+			return false
+		}
+	}
+	return true
+}
+
+// inlinableHook is set by the engine: reports whether a function is verified in place (no contract, no library spec).
+var inlinableHook func(f *ssa.Function) bool
+
+// captureStaysLocal: the closure mc (which binds v) is stored once into a local variable that is only loaded to be
+// called (or is called directly), is not itself captured or passed on, and inside it the free variable bound to v is
+// used only through loads, stores and field/index addressing.
+func captureStaysLocal(mc *ssa.MakeClosure, v ssa.Value) bool {
+	fn, ok := mc.Fn.(*ssa.Function)
+	if !ok || inlinableHook == nil || !inlinableHook(fn) {
+		return false
+	}
+	// uses of the closure value
+	if mc.Referrers() == nil {
+		return false
+	}
+	for _, r := range *mc.Referrers() {
+		switch r := r.(type) {
+		case *ssa.Store:
+			cell, ok := r.Addr.(*ssa.Alloc)
+			if !ok || r.Val != mc || cell.Referrers() == nil {
+				return false
+			}
+			for _, cr := range *cell.Referrers() {
+				switch cr := cr.(type) {
+				case *ssa.Store:
+					if cr != r {
+						return false
+					}
+				case *ssa.DebugRef:
+				case *ssa.UnOp:
+					if cr.Op != token.MUL || cr.Referrers() == nil {
+						return false
+					}
+					for _, lr := range *cr.Referrers() {
+						call, ok := lr.(*ssa.Call)
+						if !ok || call.Call.Value != cr {
+							if _, dbg := lr.(*ssa.DebugRef); !dbg {
+								return false
+							}
+						}
+					}
+				default:
+					return false
+				}
+			}
+		case *ssa.Call:
+			if r.Call.Value != mc {
+				return false
+			}
+		case *ssa.DebugRef:
+		default:
+			return false
+		}
+	}
+	// uses of the free variable inside the closure
+	for i, b := range mc.Bindings {
+		if b != v || i >= len(fn.FreeVars) {
+			continue
+		}
+		if !addrUsesLocal(fn.FreeVars[i], fn.FreeVars[i], 1) {
 			return false
 		}
 	}
@@ -596,36 +670,61 @@ func (e *Engine) bindLoopSpecs(f *ssa.Function, spec *FuncSpec) []badAnchor {
 	if spec == nil {
 		return nil
 	}
-	for _, ls := range spec.Loops {
-		var hit *Loop
-		// alternatives "A | B": the first selector that resolves wins (e.g. a label, else the header text)
-		for _, sel := range strings.Split(ls.Selector, " | ") {
-			sel = strings.TrimSpace(sel)
-			hit = matchLoopSelector(loops, sel)
-			if hit != nil && hit.Spec == nil {
-				break
+	// phase 1: exact selectors (label, ordinal, header text); phase 2: for what is left, range loops over the same
+	// expression with renamed loop variables
+	bound := map[*LoopSpec]bool{}
+	for phase := 1; phase <= 2; phase++ {
+		for _, ls := range spec.Loops {
+			if bound[ls] {
+				continue
 			}
-			hit = nil
+			var hit *Loop
+			// alternatives "A | B": the first selector that resolves wins (e.g. a label, else the header text)
+			for _, sel := range strings.Split(ls.Selector, " | ") {
+				sel = strings.TrimSpace(sel)
+				hit = matchLoopSelector(loops, sel, phase == 2)
+				if hit != nil && hit.Spec == nil {
+					break
+				}
+				hit = nil
+			}
+			if hit != nil {
+				hit.Spec = ls
+				bound[ls] = true
+			}
 		}
-		sel := ls.Selector
-		if hit == nil || hit.Spec != nil {
-			// the failed anchor counts for every property any clause of the orphaned loop contract serves
-			props := append([]string(nil), spec.Props...)
-			for _, c := range append(append([]*Clause(nil), ls.Invariants...), ls.Steps...) {
-				props = unionProps(props, c.Props)
-			}
-			if ls.Decreases != nil {
-				props = unionProps(props, append([]string{"C19"}, ls.Decreases.Props...))
-			}
-			bad = append(bad, badAnchor{fmt.Sprintf("%s/loop %s", spec.Name, sel), props, ls.Where})
+	}
+	for _, ls := range spec.Loops {
+		if bound[ls] {
 			continue
 		}
-		hit.Spec = ls
+		sel := ls.Selector
+		// a loop contract that only carries proof hints (untagged invariants, no variant, no step clause) and whose
+		// loop no longer exists is stale, not violated: whatever needed the hints fails on its own
+		hintsOnly := ls.Decreases == nil && len(ls.Steps) == 0
+		for _, c := range ls.Invariants {
+			if c.Tagged {
+				hintsOnly = false
+			}
+		}
+		if hintsOnly {
+			e.staleHints = append(e.staleHints, fmt.Sprintf("%s: loop contract %s (%s) names a loop that no longer exists; it only carried untagged proof hints and is ignored", spec.Name, sel, ls.Where))
+			continue
+		}
+		// the failed anchor counts for every property any clause of the orphaned loop contract serves
+		props := append([]string(nil), spec.Props...)
+		for _, c := range append(append([]*Clause(nil), ls.Invariants...), ls.Steps...) {
+			props = unionProps(props, c.Props)
+		}
+		if ls.Decreases != nil {
+			props = unionProps(props, append([]string{"C19"}, ls.Decreases.Props...))
+		}
+		bad = append(bad, badAnchor{fmt.Sprintf("%s/loop %s", spec.Name, sel), props, ls.Where})
 	}
 	return bad
 }
 
-func matchLoopSelector(loops []*Loop, sel string) *Loop {
+func matchLoopSelector(loops []*Loop, sel string, renamed bool) *Loop {
 	var hit *Loop
 	occ := 1
 	if k := strings.LastIndex(sel, `"@`); k > 0 {
@@ -645,7 +744,7 @@ func matchLoopSelector(loops []*Loop, sel string) *Loop {
 			t, _ := strconv.Unquote(sel)
 			want := strings.Join(strings.Fields(t), " ")
 			// a trailing "..." makes the selector a prefix of the loop header (robust against edits of the tail)
-			if t != "" && (l.Text == want || (strings.HasSuffix(want, "...") && strings.HasPrefix(l.Text, strings.TrimSuffix(want, "...")))) {
+			if t != "" && (l.Text == want || (strings.HasSuffix(want, "...") && strings.HasPrefix(l.Text, strings.TrimSuffix(want, "..."))) || (renamed && l.Spec == nil && sameRange(l.Text, want))) {
 				seenText++
 				if seenText == occ {
 					hit = l
@@ -658,4 +757,17 @@ func matchLoopSelector(loops []*Loop, sel string) *Loop {
 		}
 	}
 	return hit
+}
+
+// sameRange: two range-loop headers over the same expression match even when the loop variables were renamed
+// ("for k, option := range m" ~ "for k, opt := range m"), as long as they bind the same number of variables.
+func sameRange(a, b string) bool {
+	ia, ib := strings.Index(a, " range "), strings.Index(b, " range ")
+	if ia < 0 || ib < 0 || strings.HasSuffix(b, "...") {
+		return false
+	}
+	if a[ia:] != b[ib:] {
+		return false
+	}
+	return strings.Count(a[:ia], ",") == strings.Count(b[:ib], ",") && strings.Contains(a[:ia], ":=") == strings.Contains(b[:ib], ":=")
 }
